@@ -1,17 +1,45 @@
 (* Props_C01.v — compiled generators yield exactly the source's coroutine sequence.
-   PARTIAL (work in progress, see DESIGN.md status): what is proved so far is the
-   forward simulation of pass2 of the rewriter model (Rewrite.v) for the statement
-   forms atoms / Yield / blocks / if-else-if chains / return, under the generalised
-   reading of callbacks; for / switch, pass3 and strictness are covered by the
-   structural and behavioural correspondence and by the differential check. *)
+
+   Full statement (C01): for every generator body the compiler accepts, driving the
+   compiled iterator produces exactly the values, in the order, with the side effects,
+   the end of the sequence and the panics that the source coroutine would produce,
+   for every consumer.
+
+   What is proved (PARTIAL — see DESIGN.md): the statement above for the rewriter
+   model (Rewrite.v: pass0, pass2, pass3 with rmRedundantReturn and the
+   isTerminating / hasBreak checks) on every body made of atoms, Yield, blocks,
+   if / else-if / else chains, break / continue / return, for which the computable
+   side conditions [c01_hyps] hold: the body is in that fragment, its nesting depth
+   and that of the rewritten code are below the fuel of the model's termination
+   checker, and the output is legal Go in the sense of Strict.v (every generated
+   function literal returns a seq value on every path).  Missing: for / switch /
+   range in the proof (their rewriting is covered by the structural and behavioural
+   correspondence and by the differential check), the optimiser, and legality of
+   the output as a theorem rather than a checked condition.
+
+   The semantics quantifies over the denotations of user code (atoms, conditions,
+   tags, yielded expressions: arbitrary state transformers that may panic) and over
+   the consumer [env] (which may stop after any value), so the theorem covers every
+   interleaving of consumer and generator, every stop point and every panic point. *)
 From Coq Require Import List.
-From Verif Require Import Base Syntax Sem Rewrite RwBase Rel RwCorrect.
+From Verif Require Import Base Syntax Sem Rewrite Side RwBase Rel TermSound RwCorrect Strict C01Main.
 Import ListNotations.
 
-(* For every user-code denotation and every consumer [env]: if the source body [ss]
-   (in tail position, after whatever the block under construction already holds)
-   has outcome r — values handed to the consumer, its stop point, final world,
-   panic — then so has the block the rewriter model builds. *)
+Theorem C01_compiled_equals_source_partial :
+  forall (U V P : Type)
+         (aden : nat -> U -> outcome U P unit) (cden : nat -> U -> outcome U P bool)
+         (tden : nat -> U -> outcome U P nat) (kval : nat -> nat) (yden : nat -> U -> outcome U P V)
+         (env : nat -> V -> U -> U * bool)
+         (body : list stmt),
+    c01_hyps body = true ->
+    exists out, rewrite body = OK out /\
+      forall n u f,
+        run_source aden cden tden kval yden env n body u = Some f -> f <> FStuck ->
+        exists m, run_target aden cden tden kval yden env true m out u = Some f.
+Proof. exact compiler_correct_hyps. Qed.
+Print Assumptions C01_compiled_equals_source_partial.
+
+(* the pass2 simulation on its own, for any block kind and any fuel *)
 Theorem C01_pass2_simulation_partial :
   forall (U V P : Type)
          (aden : nat -> U -> outcome U P unit) (cden : nat -> U -> outcome U P bool)
@@ -29,8 +57,11 @@ Proof.
 Qed.
 Print Assumptions C01_pass2_simulation_partial.
 
-(* non-vacuity: a body with a yielding if / else-if chain is supported and rewritten *)
-Example C01_example_supported :
-  let body := [SAtom 1; SIf None 2 [SYield 3; SAtom 4] (EElif (SIf None 5 [SYield 6] ENone)); SYield 7; SRet XReturn] in
-  supps 5 body = true /\ exists B, rw_stmts 60 body (mkBlock KDelay) = OK B.
-Proof. split; [reflexivity|]. eexists. vm_compute. reflexivity. Qed.
+(* non-vacuity: bodies with yields under if / else-if chains, early return, and a
+   break replaced by a signal satisfy the side conditions *)
+Example C01_hyps_hold_1 :
+  c01_hyps [SAtom 1; SIf None 2 [SYield 3; SAtom 4] (EElif (SIf None 5 [SYield 6] ENone)); SYield 7; SReturn] = true.
+Proof. vm_compute. reflexivity. Qed.
+Example C01_hyps_hold_2 :
+  c01_hyps [SIf (Some (SAtom 9)) 2 [SYield 3; SIf None 4 [SReturn] (EElse [SYield 5; SAtom 6])] ENone; SAtom 7; SYield 8] = true.
+Proof. vm_compute. reflexivity. Qed.
